@@ -567,13 +567,19 @@ func seqHelpers[T comparable](e elem[T]) map[string]runFn {
 		a, b := rapid.IntRange(-2, 3).Draw(t, "a"), rapid.IntRange(-2, 3).Draw(t, "b")
 		c.note("fn=x->%d*proj(x)+%d|x", a, b)
 		fn := func(x T) string { return fmt.Sprintf("%d|%v", a*e.proj(x)+b, x) }
-		var got []string
-		c.call(func() { got = fpgo.Map(fn, w.s()...) })
+		var got, applied []string
+		c.call(func() {
+			got = fpgo.Map(func(x T) string { r := fn(x); applied = append(applied, r); return r }, w.s()...)
+		})
 		want := []string{}
 		for _, x := range w.data() {
 			want = append(want, fn(x))
 		}
 		expectSeq(c, got, want)
+		// "Map the values to the function from left to right": one application per value, in that order
+		if fmt.Sprint(applied) != fmt.Sprint(want) {
+			c.fail("application-order", "the function was applied in the order %v, documented: from left to right, once per value (%v)", applied, want)
+		}
 		c.done()
 	}
 
@@ -583,13 +589,18 @@ func seqHelpers[T comparable](e elem[T]) map[string]runFn {
 		a := rapid.IntRange(-2, 3).Draw(t, "a")
 		c.note("fn=(x,i)->%d*proj(x)+i|x@i", a)
 		fn := func(x T, i int) string { return fmt.Sprintf("%d|%v@%d", a*e.proj(x)+i, x, i) }
-		var got []string
-		c.call(func() { got = fpgo.MapIndexed(fn, w.s()...) })
+		var got, applied []string
+		c.call(func() {
+			got = fpgo.MapIndexed(func(x T, i int) string { r := fn(x, i); applied = append(applied, r); return r }, w.s()...)
+		})
 		want := []string{}
 		for i, x := range w.data() {
 			want = append(want, fn(x, i))
 		}
 		expectSeq(c, got, want)
+		if fmt.Sprint(applied) != fmt.Sprint(want) {
+			c.fail("application-order", "the function was applied in the order %v, documented: from left to right, once per value (%v)", applied, want)
+		}
 		c.done()
 	}
 
